@@ -231,7 +231,7 @@ def classify(tname, src, probs):
         return 'normalize-shape-drops-stride'
     if tname == 'merge_associates' and probs[0][0] == 'scope' and re.search(r'^\s*associate\s*\(', low, re.M):
         return 'merge-associates-detached-scope'
-    if tname == 'loop_unroll' and probs[0][0] in ('reparse', 'gfortran') and re.search(r'^\s*(exit|cycle)\s*$', low, re.M):
+    if tname in ('loop_unroll', 'constant_propagation(unroll_loops)') and probs[0][0] in ('reparse', 'gfortran') and re.search(r'^\s*(exit|cycle)\s*$', low, re.M):
         return 'loop-unroll-exit-cycle'
     if tname in ('inline_marked_subroutines', 'inline_internal_procedures') and probs[0][0] in ('reparse', 'gfortran') and \
             re.search(r'::\s*\w+\([^)]*:[^)]*\)', low) and re.search(r'[(,]\s*:\s*[,)]', low):
